@@ -206,6 +206,8 @@ pub fn sig_key(kid: u64) -> (bc_components::SigningPrivateKey, bc_components::Si
 #[derive(Default)]
 pub struct Machine {
     pub regs: HashMap<String, Val>,
+    /// recipient private keys of the scenario, by key id (`fact kemkey <kid> <private-key-cbor-hex>`)
+    pub kem_keys: HashMap<u64, bc_components::EncapsulationPrivateKey>,
 }
 
 fn res(r: anyhow::Result<Envelope>) -> Val {
@@ -338,6 +340,33 @@ impl Machine {
             // the `*_salted` forms with `salted = false`: same result as the plain forms, through the other code path
             ["add_env_unsalted", e, a] => res(self.env(e)?.add_assertion_envelope_salted(self.env(a)?, false)),
             ["add_many_unsalted", e, xs] => { let e = self.env(e)?; let xs = self.envs(xs)?; if xs.iter().all(|x| x.is_subject_assertion() || x.is_subject_obscured()) { Val::Env(e.add_assertions_salted(&xs, false)) } else { Val::Err("InvalidFormat".into()) } }
+            // recipients and SSKR with everything the library would draw at random made explicit (content key, nonce, sealed
+            // messages, shares): the decompositions of encrypt_subject_to_recipients / add_recipient / sskr_split
+            ["add_recipient", e, sealed] => {
+                let sm = self.env(sealed)?.extract_subject::<bc_components::SealedMessage>().ok()?;
+                Val::Env(self.env(e)?.add_assertion(known_values::HAS_RECIPIENT, sm))
+            }
+            ["enc_to_recipients", e, ck, n, sealeds] => {
+                let key = SymmetricKey::from_data_ref(hex::decode(ck).ok()?).ok()?;
+                let nonce = Nonce::from_data_ref(hex::decode(n).ok()?).ok()?;
+                match self.env(e)?.encrypt_subject_opt(&key, Some(nonce)) {
+                    Ok(mut x) => { for s in self.envs(sealeds)? { let sm = s.extract_subject::<bc_components::SealedMessage>().ok()?; x = x.add_assertion(known_values::HAS_RECIPIENT, sm); } Val::Env(x) }
+                    Err(x) => Val::Err(err_kind(&x)),
+                }
+            }
+            ["encrypt_to_recipient", e, ck, n, sealed] => {
+                let key = SymmetricKey::from_data_ref(hex::decode(ck).ok()?).ok()?;
+                let nonce = Nonce::from_data_ref(hex::decode(n).ok()?).ok()?;
+                let sm = self.env(sealed)?.extract_subject::<bc_components::SealedMessage>().ok()?;
+                match self.env(e)?.wrap_envelope().encrypt_subject_opt(&key, Some(nonce)) { Ok(x) => Val::Env(x.add_assertion(known_values::HAS_RECIPIENT, sm)), Err(x) => Val::Err(err_kind(&x)) }
+            }
+            ["decrypt_subject_to_recipient", e, kid] => { let k = self.kem_keys.get(&kid.parse().ok()?)?.clone(); res(self.env(e)?.decrypt_subject_to_recipient(&k)) }
+            ["decrypt_to_recipient", e, kid] => { let k = self.kem_keys.get(&kid.parse().ok()?)?.clone(); res(self.env(e)?.decrypt_to_recipient(&k)) }
+            ["add_sskr_share", e, share] => {
+                let sh = self.env(share)?.extract_subject::<bc_components::SSKRShare>().ok()?;
+                Val::Env(self.env(e)?.add_assertion(known_values::SSKR_SHARE, sh))
+            }
+            ["sskr_join", es] => { let es = self.envs(es)?; let refs: Vec<&Envelope> = es.iter().collect(); res(Envelope::sskr_join(&refs)) }
             ["add_type", e, t] => Val::Env(self.env(e)?.add_type(self.env(t)?)),
             ["add_attachment", e, payload, v, c] => {
                 let v = String::from_utf8(hex::decode(v).ok()?).ok()?; let c = opt_str(c)?;
@@ -465,6 +494,7 @@ impl Machine {
                 Ok(q) => format!("ok id={} content={} note={} date={}", hex::encode(q.id().data()), hex::encode(q.content().as_bytes()), hex::encode(q.note().as_bytes()), date_str(q.date())),
                 Err(x) => format!("err {}", err_kind(&x)),
             },
+            ["recipients", e] => match self.env(e)?.recipients() { Ok(l) => format!("[{}]", l.iter().map(|m| hex::encode(m.to_cbor_data())).collect::<Vec<_>>().join(" ")), Err(x) => format!("err {}", err_kind(&x)) },
             ["has_sig", e, kid] => {
                 let (_, pk) = sig_key(kid.parse().ok()?);
                 match self.env(e)?.has_signature_from_returning_metadata(&pk) { Ok(Some(m)) => format!("some {}", dshort(&m.digest())), Ok(None) => "none".into(), Err(x) => format!("err {}", err_kind(&x)) }
@@ -490,9 +520,18 @@ impl Machine {
         if toks.is_empty() || toks[0] == "#" { return None; }
         if toks.len() == 2 && toks[0] == "scenario" {
             self.regs.clear();
+            self.kem_keys.clear();
             return Some(format!("scenario {}", toks[1]));
         }
-        if toks[0] == "fact" { return Some("ok".into()); }
+        if toks[0] == "fact" {
+            // facts state to the model what the real cryptography did; one kind also hands this interpreter a key
+            if toks.len() == 4 && toks[1] == "kemkey" {
+                if let (Ok(kid), Ok(b)) = (toks[2].parse::<u64>(), hex::decode(toks[3])) {
+                    if let Ok(k) = CBOR::try_from_data(&b).map_err(|e| anyhow::anyhow!(e)).and_then(bc_components::EncapsulationPrivateKey::try_from) { self.kem_keys.insert(kid, k); }
+                }
+            }
+            return Some("ok".into());
+        }
         if toks[0] == "obs" {
             return Some(match guarded(|| self.eval_obs(&toks[1..])) {
                 Ok(Some(s)) => s,
